@@ -39,6 +39,8 @@ def _preamble():
              'Definition S1 (q : Q) := Single (Some q) (@nil Q).',
              'Definition SN := Single (@None Q) (@nil Q).',
              'Definition M2 (a b : Q) := Multi [a; b] [(1#1)%Q; (1#1)%Q].',
+             'Definition TB (t : sel_type) : sel_type + custom_sel := inl t.',
+             'Definition TC (c : custom_sel) : sel_type + custom_sel := inr c.',
              'Definition EP := Build_eparams.', 'Definition RP := Build_rparams.', 'Definition RC := Build_rcall.']
     FIT_NAMES[('S', None)] = 'SN'
     for i, v in enumerate(S_VALUES):
@@ -67,7 +69,25 @@ PRE, PRE_BIG = _preamble()
 SHARD = 1200   # cases per generated Coq file (coqc start-up dominates small shards)
 KNOWN_HEAD = 'C16.replace_worst.head_dropped_when_all_new_better'
 
-SEL = {'tournament': (SelectionTypesEnum.tournament, 'Tournament'), 'spea2': (SelectionTypesEnum.spea2, 'Spea2')}
+def first_n(population, pop_size):
+    """custom selection: the first pop_size individuals in input order"""
+    return list(population)[:pop_size]
+
+
+def last_n(population, pop_size):
+    """custom selection: the last pop_size individuals"""
+    return list(population)[-pop_size:]
+
+
+def trunc_best(population, pop_size):
+    """custom selection: deterministic truncation by fitness (each position taken once)"""
+    return sorted(population, key=lambda ind: ind.fitness, reverse=True)[:pop_size]
+
+
+# name -> (entry of selection_types, Coq term of type sel_type + custom_sel)
+SEL = {'tournament': (SelectionTypesEnum.tournament, '(TB Tournament)'), 'spea2': (SelectionTypesEnum.spea2, '(TB Spea2)'),
+       'first_n': (first_n, '(TC FirstN)'), 'last_n': (last_n, '(TC LastN)'), 'trunc_best': (trunc_best, '(TC TruncBest)')}
+CUSTOM = ('first_n', 'last_n', 'trunc_best')
 ELI = {'keep_n_best': (ElitismTypesEnum.keep_n_best, 'KeepNBest'),
        'replace_worst': (ElitismTypesEnum.replace_worst, 'ReplaceWorst'),
        'none': (ElitismTypesEnum.none, 'ENone')}
@@ -206,7 +226,10 @@ def selection_coq(case, out):
                                      c_nat(case['ps']), opt_inds_coq(out))
 
 
-SEL_FN = 'fun c => match c with (t, d, pop, ps, out) => [call_admits t d pop ps out; call_holds_b t d pop ps out] end'
+SEL_FN = ('fun c => match c with (t, d, pop, ps, out) => match t with '
+          '| inl t => [call_admits t d pop ps out; call_holds_b t d pop ps out] '
+          # a user function: the property demands nothing of it; the model is the function itself
+          '| inr cu => [match out with Some o => sel_custom_admits cu d pop ps o | None => false end; true] end end')
 
 
 def gen_selection_cases(ctx):
@@ -236,6 +259,12 @@ def gen_selection_cases(ctx):
             ps = 0          # pop_size=None: taken from the parameters
         cases.append({'op': 'sel', 't': t, 'multi': multi, 'default': default, 'ps': ps, 'pop': pop,
                       'seed': r.randrange(10 ** 6), 'ex': False})
+    for k in range(ctx.budget(300, 2000)):      # callable entries of selection_types are called as they are
+        multi = r.random() < 0.5
+        n = r.randint(1, 15)
+        pop = rand_population(r, rand_pool(r, r.randint(1, n), multi), n, r.choice([0.0, 0.2, 0.5]))
+        cases.append({'op': 'sel', 't': r.choice(CUSTOM), 'multi': multi, 'default': r.randint(1, 15),
+                      'ps': r.choice([0, r.randint(1, 15)]), 'pop': pop, 'seed': r.randrange(10 ** 6), 'ex': False})
     return cases
 
 
@@ -411,8 +440,11 @@ def inheritance_coq(case, out):
                                          inds_coq(case['prev']), inds_coq(case['new']), opt_inds_coq(out))
 
 
-INH_FN = ('fun c => match c with (sc, t, ps, prev, new, out) => '
-          '[inh_admits sc t ps prev new out; inh_holds_b sc ps prev new out] end')
+INH_FN = ('fun c => match c with (sc, t, ps, prev, new, out) => match t with '
+          '| inl t => [inh_admits sc t ps prev new out; inh_holds_b sc ps prev new out] '
+          '| inr cu => match out with '
+          '  | Some o => [inh_custom_admits sc cu ps prev new o; inh_custom_holds_b sc ps prev new o] '
+          '  | None => [false; false] end end end')
 
 
 def gen_inheritance_cases(ctx):
@@ -421,7 +453,7 @@ def gen_inheritance_cases(ctx):
     n_rand = ctx.budget(5000, 35000)
     for _ in range(n_rand):
         sc = r.choice(['steady_state', 'steady_state', 'generational', 'parameter_free'])
-        t = r.choice(['tournament', 'spea2'])
+        t = r.choice(['tournament', 'spea2', 'tournament', 'spea2', 'first_n', 'last_n', 'trunc_best'])
         multi = r.random() < 0.5
         npool = r.randint(1, 15)
         pool = rand_pool(r, npool, multi)
@@ -459,7 +491,8 @@ def eval_inheritance(ctx, cases, group='inheritance', given=None):
         rec = dict(c, observed=out)
         ctx.count(group, key=(c['sc'], c['t'], c['pop_size'], tuple((d[0], tuple(d[1])) for d in c['prev']),
                               tuple((d[0], tuple(d[1])) for d in c['new'])),
-                  nontrivial=(c['sc'] == 'generational' or distinct > c['pop_size']), scheme=c['sc'], type=c['t'],
+                  nontrivial=(c['sc'] == 'generational' or distinct > c['pop_size'] or
+                              (c['t'] in CUSTOM and bool(set(pu) & set(nu)))), scheme=c['sc'], type=c['t'],
                   multi=c['multi'], overlap=bool(set(pu) & set(nu)),
                   repeats=(len(set(pu)) < len(pu) or len(set(nu)) < len(nu)))
         if not ho:
@@ -690,7 +723,7 @@ def gen_sessions(ctx):
     for _ in range(ctx.budget(500, 3500)):
         multi_fit = r.random() < 0.25
         init = {'pop_size': r.choice([2, 3, 4, 4, 5, 8]), 'min_pop': 5, 'et': r.choice(['keep_n_best', 'replace_worst', 'none']),
-                't': r.choice(['tournament', 'spea2']), 'sc': r.choice(list(SCH)), 'multi': multi_fit}
+                't': r.choice(['tournament', 'spea2', 'trunc_best']), 'sc': r.choice(list(SCH)), 'multi': multi_fit}
         pool = rand_pool(r, r.randint(2, 12), multi_fit)
         extra = rand_pool(r, r.randint(0, 5), multi_fit, uid0=100)
         steps = []
@@ -702,7 +735,7 @@ def gen_sessions(ctx):
                 elif name == 'et':
                     change[name] = r.choice(['keep_n_best', 'replace_worst', 'none'])
                 elif name == 't':
-                    change[name] = r.choice(['tournament', 'spea2'])
+                    change[name] = r.choice(['tournament', 'spea2', 'first_n', 'last_n', 'trunc_best'])
                 elif name == 'sc':
                     change[name] = r.choice(list(SCH))
                 elif name == 'multi' and not multi_fit:
@@ -752,7 +785,9 @@ def run(ctx):
                 'spea2} x {steady_state, generational, parameter_free} x {keep_n_best, replace_worst, none} x single / '
                 'multi objective; an exhaustive small scope (all sequences of length <= 4 over 3 individuals) for '
                 'selection and elitism; reproduction: sequences of 1..3 reproduce() calls with a scripted evaluator that '
-                'drops individuals; SESSIONS: one Selection / Inheritance / Elitism instance sharing one GPAlgorithmParameters '
+                'drops individuals; CUSTOM selection callables in selection_types (first-n, last-n, truncation by fitness; '
+                'called by Selection without the de-duplicating wrapper) for Selection, Inheritance under all schemes with '
+                'overlapping prev / new, and inside sessions; SESSIONS: one Selection / Inheritance / Elitism instance sharing one GPAlgorithmParameters '
                 'object that is changed in place between 2..6 calls (pop_size, min_pop_size_with_elitism, elitism type, '
                 'selection type, scheme, multi_objective), with update_requirements(the same object) or no update, each call '
                 'judged for the parameters in force. distinct = distinct (operator, configuration, input); non-trivial = the selection '
